@@ -94,7 +94,14 @@ class Gen:
             if what in ("push", "release"):
                 del self.held[h]
             self.ops.append(op)
-        elif x < 0.49 + w_reg and len(st["pend"]) < (12 if p == "storm" else 5):
+        elif x < 0.49 + w_reg and len(st["pend"]) < (18 if p == "storm" else 5):
+            if rng.random() < 0.08:
+                # a placeholder of zero bytes: never pending, but its Backref can still be "filled"
+                hid = self.next_hole
+                self.next_hole += 1
+                st.setdefault("zeros", []).append(hid)
+                self.ops.append({"ev": "register", "o": o, "n": 0, "id": hid})
+                return
             n = rng.choice([1, 1, 2, 2, 3, 8, 65, 100, 300]) if rng.random() < 0.5 else rng.choice([1, 2, 3])
             hid = self.next_hole
             self.next_hole += 1
@@ -102,6 +109,9 @@ class Gen:
             st["pos"] += n
             st["bytes"] += n
             self.ops.append({"ev": "register", "o": o, "n": n, "id": hid})
+        elif x < 0.49 + w_reg + w_fill and st.get("zeros") and rng.random() < 0.5:
+            hid = st["zeros"].pop(rng.randrange(len(st["zeros"])))
+            self.ops.append({"ev": "backfill", "o": o, "id": hid, "v": 252})
         elif x < 0.49 + w_reg + w_fill and st["pend"]:
             hid = rng.choice(list(st["pend"]))
             if rng.random() < 0.04:
@@ -263,6 +273,23 @@ def scripted_runs(start):
     for i in (5, 9, 7, 3, 10, 6, 8, 4, 2, 1):
         ops += [{"ev": "backfill", "o": 1, "id": i, "v": 252 + i % 4}, {"ev": "advance", "o": 1, "n": 30}]
     ops += [{"ev": "read", "o": 1, "n": 10 ** 6}, {"ev": "drop", "o": 1}]
+    run(ops)
+    # sixteen placeholders; nine fills from the middle before the front ones (tombstones pile up in the backref deque)
+    ops = [{"ev": "new", "o": 1}]
+    for i in range(16):
+        ops += [{"ev": "register", "o": 1, "n": 1, "id": i + 1}, {"ev": "push", "o": 1, "m": "copy", "d": [0, i, 66]}]
+    order = [1, 2, 3, 4, 8, 9, 10, 11, 6] + [0, 5, 7, 12, 13, 14, 15]
+    for k, i in enumerate(order):
+        ops.append({"ev": "backfill", "o": 1, "id": i + 1, "v": 252 + i % 4})
+        if k % 3 == 2:
+            ops.append({"ev": "advance", "o": 1, "n": 50})
+    ops += [{"ev": "read", "o": 1, "n": 10 ** 6}, {"ev": "drop", "o": 1}]
+    run(ops)
+    # a zero-byte placeholder filled while a real one is pending
+    ops = [{"ev": "new", "o": 1}, {"ev": "push", "o": 1, "m": "copy", "d": [0, 0, 5]}, {"ev": "register", "o": 1, "n": 2, "id": 1},
+           {"ev": "register", "o": 1, "n": 0, "id": 2}, {"ev": "push", "o": 1, "m": "copy", "d": [0, 7, 9]},
+           {"ev": "backfill", "o": 1, "id": 2, "v": 252}, {"ev": "read", "o": 1, "n": 100},
+           {"ev": "backfill", "o": 1, "id": 1, "v": 253}, {"ev": "read", "o": 1, "n": 100}, {"ev": "drop", "o": 1}]
     run(ops)
     # clone_from onto an object that still has a placeholder pending: it becomes a plain snapshot of the source
     ops = [{"ev": "new", "o": 1}, {"ev": "new", "o": 2}, {"ev": "push", "o": 1, "m": "copy", "d": [0, 0, 40]},
